@@ -336,9 +336,20 @@ func splitBySyscalls(ops []Op, calls []Syscall) ([]Op, int, error) {
 			}
 		}
 	}
+	// system calls left over must be in-place rewrites of bytes that did not change (the
+	// snapshots show no difference): they lie inside what had been appended before
+	extent := map[string]int{}
+	for _, op := range ops {
+		if op.Kind == "append" {
+			extent[filepath.Base(op.File)] = max(extent[filepath.Base(op.File)], op.Off+len(op.Data))
+		}
+	}
 	for f, cs := range perFile {
-		if idx[f] != len(cs) {
-			return nil, 0, fmt.Errorf("%d syscalls on %s are not explained by the inferred log", len(cs)-idx[f], f)
+		for _, c := range cs[idx[f]:] {
+			if c.Off+c.Len > extent[f] {
+				return nil, 0, fmt.Errorf("syscall %+v on %s is not explained by the inferred log", c, f)
+			}
+			matched++
 		}
 	}
 	return out, matched, nil
